@@ -7,6 +7,8 @@ import (
 	"reflect"
 	"sort"
 	"strings"
+
+	"github.com/gopcua/opcua/uacp"
 )
 
 // VerifConfigSnapshot renders every field reachable from a client
@@ -86,3 +88,6 @@ func verifDump(b *strings.Builder, path string, v reflect.Value, depth int) {
 		fmt.Fprintf(b, "%s = %v\n", path, v)
 	}
 }
+
+// VerifDialer returns the dialer the client connects with.
+func VerifDialer(c *Client) *uacp.Dialer { return c.cfg.dialer }
